@@ -124,7 +124,7 @@ pub fn run(seed: u64, count: usize, outdir: &str) -> std::io::Result<i32> {
                         else if inside != (want < 0.0) {
                             // interval bounds are not rounded outward: a value within rounding distance of zero may be filled either way
                             let scale = vals.iter().fold(1.0f32, |a, b| a.max(b.abs()));
-                            if want.abs() > 1e-4 * scale { problem = Some(format!("filled {} at depth {depth} but the value is {want}", if inside { "inside" } else { "outside" })); } else { nnear += 1; }
+                            if want == 0.0 || want.abs() > 1e-4 * scale { problem = Some(format!("filled {} at depth {depth} but the value is {want}", if inside { "inside" } else { "outside" })); } else { nnear += 1; }
                         }
                         if depth as usize >= c.tiles.len() { problem = Some(format!("fill depth {depth} with {} tile levels", c.tiles.len())); }
                     }
